@@ -154,8 +154,10 @@ def handleParse (s : Sess) (i : Nat) (op impl : Json) (line2 : Option Json := no
               let same := a.pkts == a2.pkts && a.exports == a2.exports && a.common == a2.common && a.state == a2.state
               -- once a history has involved a field unknown to the library the two builds may hold different caches
               -- (the build without the feature drops the sets after an undecodable one): equality is required only before that
-              let tainted := ((s.sticky.lookup p).getD []).contains "c17-unknown-seen"
-              [("C17", (tainted || Findings.usesUnknown c a2.state || Findings.usesUnknown c before || Findings.reportsUnknownTemplate c a2.pkts || same) && Findings.noUnknownEntries c a.pkts && Findings.noRecordsOfUnknownTemplates c before a.state a.pkts)]
+              let tainted := ((s.sticky.lookup p).getD []).contains "c17-ipfix-caches-diverged"
+              -- the V9 caches never depend on the feature (a failing V9 data record does not stop the flowset loop)
+              let v9Same := a.state.v9T == a2.state.v9T && a.state.v9O == a2.state.v9O
+              [("C17", v9Same && (tainted || Findings.usesUnknown c a2.state || Findings.usesUnknown c before || Findings.reportsUnknownTemplate c a2.pkts || same) && Findings.noUnknownEntries c a.pkts && Findings.noRecordsOfUnknownTemplates c before a.state a.pkts)]
         let jsons : List Json := match impl.getObjVal? "json" with | .ok (.arr xs) => xs.toList | _ => []
         let c16 : List (String × Bool) := if wants op "json" then [("C16", a.outcome != "done" || Preds.jsonAllOk c a.pkts jsons)] else []
         let alloc := getNatD impl "alloc" 0
@@ -186,11 +188,11 @@ def handleParse (s : Sess) (i : Nat) (op impl : Json) (line2 : Option Json := no
               before.v9T.any (fun e => e.2.fields.any fun f => f.len == 0) then ["c15-zero-length-fields"] else [])
         let unkNow : Bool := match line2 with
           | some j2 => (match (fromJson? j2 : Except String ParseAns) with
-            | .ok a2 => Findings.usesUnknown c a2.state || Findings.usesUnknown c before || Findings.reportsUnknownTemplate c a2.pkts
+            | .ok a2 => a.state.ipT != a2.state.ipT || a.state.ipO != a2.state.ipO
             | .error _ => false)
           | none => false
         let stickyNow := ((s.sticky.lookup p).getD []) ++ classes0.filter (fun x => x == "ipfix-multi-template-set") ++
-          (if unkNow then ["c17-unknown-seen"] else [])
+          (if unkNow then ["c17-ipfix-caches-diverged"] else [])
         let classes := (classes0 ++ stickyNow).eraseDups
         let call : Call := { buf := buf, impl := a, model := m, implBefore := before, jsons := jsons.map (·.compress) }
         let s' := { s' with sticky := upd s'.sticky p stickyNow.eraseDups, implSts := upd s'.implSts p a.state, calls := upd s'.calls p (call :: (s'.calls.lookup p).getD []) }
@@ -309,6 +311,32 @@ def handleFlat (s : Sess) (i : Nat) (op impl : Json) : Sess × Json :=
         Json.mkObj [("i", i), ("kind", "flat"), ("corr", fl == mflat), ("diff", jsonOfList (if fl == mflat then [] else ["common"])),
           ("oracle", Json.mkObj []), ("returned", true)])
 
+/-- C08, second half: a V5/V7 STRUCTURE (count = number of records) exported by the real `to_be_bytes` and parsed
+    back by the real `parse_bytes` must come back equal; the model does the same with `exportFixed` / `parsePacket`. -/
+def handleFixedRoundtrip (s : Sess) (i : Nat) (op impl : Json) : Json :=
+  let c := s.cfg 0
+  let v := getNatD op "v" 5
+  let (hdrL, recL, hO, rO) := if v == 5 then (c.t.v5Hdr, c.t.v5Rec, c.t.v5HdrOrder, c.t.v5RecOrder) else (c.t.v7Hdr, c.t.v7Rec, c.t.v7HdrOrder, c.t.v7RecOrder)
+  match op.getObjValAs? (List Nat) "hdr", op.getObjValAs? (List (List Nat)) "recs" with
+  | .ok h, .ok rs0 =>
+    -- the derived protocol name is a function of the protocol number (the harness builds it with `ProtocolTypes::from`)
+    let pn := recL.indexOf "protocol_number"
+    let pt := recL.indexOf "protocol_type"
+    let rs := rs0.map fun r => r.set pt (c.t.protoFromU8 (r.getD pn 0))
+    let expected : Packet := if v == 5 then .v5 h rs else .v7 h rs
+    let bytes := exportFixed hdrL recL hO rO h rs
+    let (_, mout) := parseBytes c {} bytes
+    let mpk := outcomePkts mout
+    match impl.getObjValAs? Bytes "bytes", impl.getObjValAs? (List Packet) "pkts" with
+    | .ok ib, .ok ipk =>
+      let d := (if ib != bytes then ["exports"] else []) ++ (if ipk != mpk then ["pkts"] else [])
+      Json.mkObj [("i", i), ("kind", "parse"), ("corr", d.isEmpty), ("diff", jsonOfList d),
+        ("oracle", Json.mkObj [("C08", Json.bool (ipk == [expected]))]), ("model_oracle", Json.mkObj [("C08", Json.bool (mpk == [expected]))]),
+        ("returned", true), ("nontrivial", true), ("digest", (hash (toString (toJson ipk))).toNat), ("tags", jsonOfList (ipk.map pktTag)),
+        ("impl_outcome", "done"), ("model_outcome", "done"), ("len", bytes.length)]
+    | _, _ => Json.mkObj [("i", i), ("kind", "parse"), ("corr", false), ("diff", jsonOfList ["undecodable"]), ("oracle", Json.mkObj []), ("returned", true)]
+  | _, _ => Json.mkObj [("i", i), ("bad", "fixed_roundtrip")]
+
 def handle (s : Sess) (line : Json) : Sess × Json :=
   let i := getNatD line "i" 0
   let op := (line.getObjVal? "op").toOption.getD Json.null
@@ -329,6 +357,7 @@ def handle (s : Sess) (line : Json) : Sess × Json :=
     ({ s with allowed := upd s.allowed (getNatD op "p" 0) ((getNatList op "set").getD []) }, Json.mkObj [("i", i), ("kind", "allowed")])
   | "parse" =>
     if s.dead then (s, Json.mkObj [("i", i), ("kind", "skipped")]) else handleParse s i op impl (line.getObjVal? "impl2").toOption
+  | "fixed_roundtrip" => (s, handleFixedRoundtrip s i op impl)
   | "flat" =>
     if s.dead then (s, Json.mkObj [("i", i), ("kind", "skipped")]) else handleFlat s i op impl
   | other =>
@@ -352,6 +381,12 @@ partial def loop (h : IO.FS.Stream) (out : IO.FS.Stream) (s : Sess) : IO Unit :=
     out.putStrLn v.compress
     out.flush
     loop h out s'
+
+/-- record boundaries of a V5 / V7 packet (a cut exactly there is still a cut strictly inside the packet) -/
+def fixedBoundaries : Spec.Msg → List Nat
+  | .v5 _ rs => (List.range rs.length).map fun j => 24 + 48 * j
+  | .v7 _ rs => (List.range rs.length).map fun j => 24 + 52 * j
+  | _ => []
 
 /-- byte offsets inside the encoded message at which a flowset/set (or the header) ends -/
 def setBoundaries : Spec.Msg → List Nat
@@ -394,7 +429,7 @@ partial def encodeLoop (h : IO.FS.Stream) (out : IO.FS.Stream) (lastCut : Nat) :
             -- optional: cut `cutdelta` bytes after the `cutbound`-th flowset boundary instead
             let k0 := match j.getObjValAs? Nat "cutbound", j.getObjValAs? Nat "cutdelta" with
               | .ok bi, .ok dl =>
-                let bs0 := (setBoundaries last).reverse
+                let bs0 := (setBoundaries last).reverse ++ fixedBoundaries last
                 if bs0.isEmpty then 1 + (e.length - 2) * frac / 1000 else bs0.getD (bi % bs0.length) 20 + dl
               | _, _ => 1 + (e.length - 2) * frac / 1000
             let bs := setBoundaries last
